@@ -18,7 +18,7 @@ import json, os, re, shutil, subprocess, sys, tempfile, concurrent.futures
 ENV = dict(os.environ, GOFLAGS="-mod=mod", GOPROXY="off", GOSUMDB="off", GOTOOLCHAIN="local")
 ENV.pop("GOWORK", None)
 PROPS = ["C%02d" % i for i in range(1, 21)]
-PLENCHECK = "/verif/bin/plencheck"
+PLENCHECK = os.environ.get("PLENCHECK_BIN", "/verif/bin/plencheck")
 
 
 def run(cmd, cwd, timeout=600, env=None):
